@@ -202,7 +202,12 @@ class Bench:
     async def close(self, s: str) -> None:
         self.closed[s] = True
         self.emit(ev="close", s=s)
-        await self.st[s].aclose()
+        try:
+            await self.st[s].aclose()
+        except Exception as exc:  # noqa: BLE001
+            # seen: AttributeError out of transport.abort() when the write buffer of a send that is
+            # still in progress (or was cancelled) drains between close() and abort() - see finding note
+            self.notes.append(f"aclose {s}: {exc!r}")
 
     async def eof(self, s: str) -> None:
         import anyio
